@@ -1155,8 +1155,8 @@ func (e *Exec) finish() {
 		e.checkColl("final-reopen")
 	}
 	leak := e.flag("leakCheck")
-	if leak {
-		e.closeHandlesRandomOrder()
+	if leak || e.flag("snapEach") {
+		e.closeEverythingRandomOrder()
 	} else {
 		e.closeAllHandlesIf(true)
 	}
